@@ -21,6 +21,8 @@ EXTRA = ["sum([0.1] * 10)", "sum([1, 2.5, 3])", "sum([1e308, 1e308])", "max(1, 1
 HEADER = ("def kind(r):\n    if r is True or r is False: return 'bool'\n    if isinstance(r, float): return 'float'\n    if isinstance(r, complex): return 'complex'\n    if isinstance(r, str): return 'str'\n    if isinstance(r, tuple): return 'tuple'\n    return 'int'\n"
           "def t(f):\n    try:\n        r = f()\n        print(kind(r), repr(r))\n    except ZeroDivisionError:\n        print('ZeroDivisionError')\n    except OverflowError:\n        print('OverflowError')\n    except ValueError:\n        print('ValueError')\n    except TypeError:\n        print('TypeError')\n")
 
+ROUND_DIGITS = [-401, -400, -309, -308, -307, -300, -23, -17, -16, -15, -2, 0, 3, 15, 16, 17, 22, 23, 300, 307, 308, 309, 310, 315, 322, 323, 324, 325, 326, 400, 401, 2**31, -2**31, 2**63 - 1]
+ROUND_SMALL = ["5e-324", "1e-323", "2.5e-323", "1.5e-323", "1e-310", "7e-310", "1.25e-311", "-3e-315", "2.2250738585072014e-308", "2.225073858507201e-308", "1.5e-308", "-2.5e-308", "4.5e-308", "1.7976931348623157e308", "3.5e-320", "-6.5e-322"]
 def expressions(rnd, tier):
     ex = []
     fl = list(SPECIAL)
@@ -31,6 +33,13 @@ def expressions(rnd, tier):
         if v == v and abs(v) != float("inf"): fl.append(repr(v))
     for a in fl:
         for op in ["float(%s)", "int(%s)", "round(%s)", "round(%s, 1)", "round(%s, 2)", "round(%s, -1)", "abs(%s)", "-(%s)", "bool(%s)", "str(%s)", "float(repr(%s))", "(%s) == (%s)"]: ex.append(op.replace("%s", a))
+    # round(x, n) across the whole range of decimal exponents a double can have (5e-324 .. 1.8e308) and beyond
+    # both cut-offs: the digits that still matter for subnormals (309..324) and the negative ones up to -308
+    for a in fl:
+        for nd in (rnd.sample(ROUND_DIGITS, 6) if (tier == "quick" and a not in SPECIAL) else ROUND_DIGITS):
+            ex.append("round(%s, %d)" % (a, nd))
+    for a in ROUND_SMALL:
+        for nd in range(300, 330): ex.append("round(%s, %d)" % (a, nd))
     pairs = [(a, b) for a in fl for b in fl]
     if tier == "quick": pairs = [p for p in pairs if p[0] in SPECIAL and p[1] in SPECIAL] + rnd.sample(pairs, min(400, len(pairs)))
     for a, b in pairs:
